@@ -1,6 +1,6 @@
 SPECIFICATION SSpec
 CONSTANTS P = 59
- K = 3
+ K = 2
  NModes = 5
  Seed = 1
 INVARIANT Emit
